@@ -36,9 +36,10 @@ VARIABLES l,        \* index of the next line to consume
           cfgs,     \* node id -> static configuration (from the Start line)
           ndiv,     \* [checked, diverged, skipped] conformance counters
           lastProp, \* the latest proposal broadcast in this run: [k, now, h] (C16)
+          initTs,   \* node id -> previous block's timestamp given to the last Start / Reset (C15)
           recPrim   \* heights at which some node became primary of a new view while processing a recovery message (known finding KF-2)
 
-vars == <<l, run, st, acc, sent, lock, maxv, preOk, txq, nviol, cfgs, ndiv, lastProp, recPrim>>
+vars == <<l, run, st, acc, sent, lock, maxv, preOk, txq, nviol, cfgs, ndiv, lastProp, recPrim, initTs>>
 
 \* TRUE: also check every logged call against the transition relation of DbftNode.tla
 CheckConformance == "VERIF_CONFORM" \in DOMAIN IOEnv /\ IOEnv.VERIF_CONFORM = "1"
@@ -327,10 +328,11 @@ LastBefore(e, j, kind) == LET ks == {k \in Cbs(e, kind) : k < j} IN IF ks = {} T
 MaxI(a, b) == IF a >= b THEN a ELSE b
 ProposalWellFormed(e, j, cfg) ==
   LET at == e.cb[j].at  m == e.cb[j].m
+      prevTs == IF e.call \in {"Start", "Reset"} THEN e.arg.ts ELSE initTs[e.n]
       g == LastBefore(e, j, "GetVerified")  c == LastBefore(e, j, "NewPrepareRequest") IN
     (m.from = at.me /\ m.h = at.h) =>
-      /\ m.ts > at.lbTs
-      /\ m.ts = MaxI(at.lbTs + cfg.inc, (e.now \div cfg.inc) * cfg.inc)
+      /\ m.ts > prevTs
+      /\ m.ts = MaxI(prevTs + cfg.inc, (e.now \div cfg.inc) * cfg.inc)
       /\ g > 0 /\ m.txs = e.cb[g].pool
       /\ c > 0 /\ e.cb[c].block.ts = m.ts /\ e.cb[c].block.nonce = m.nonce /\ e.cb[c].block.txs = m.txs
       /\ at.ts = m.ts /\ at.nonce = m.nonce /\ at.txs = m.txs
@@ -476,7 +478,7 @@ NextPreOk(e, pre) == (IF NewHeight(e, pre) THEN 0 ELSE preOk[e.n]) + Cardinality
 -----------------------------------------------------------------------------
 Init == /\ l = 1 /\ run = [call |-> "none"] /\ st = <<>> /\ acc = <<>> /\ sent = <<>> /\ lock = <<>>
         /\ maxv = <<>> /\ preOk = <<>> /\ txq = <<>> /\ nviol = 0
-        /\ cfgs = <<>> /\ ndiv = [checked |-> 0, diverged |-> 0, skipped |-> 0] /\ lastProp = None /\ recPrim = {}
+        /\ cfgs = <<>> /\ ndiv = [checked |-> 0, diverged |-> 0, skipped |-> 0] /\ lastProp = None /\ recPrim = {} /\ initTs = <<>>
         /\ TLCSet(1, ndiv)
 
 StartRun ==
@@ -491,7 +493,7 @@ StartRun ==
        /\ preOk' = [n \in ns |-> 0]
        /\ txq' = [n \in ns |-> [key |-> NoKey, asked |-> {}, given |-> {}]]
        /\ cfgs' = [n \in ns |-> [tpb |-> 0, maxTpb |-> 0, inc |-> 1, amevH |-> -1, watch |-> FALSE]]
-       /\ lastProp' = None /\ recPrim' = {}
+       /\ lastProp' = None /\ recPrim' = {} /\ initTs' = [n \in ns |-> 0]
   /\ l' = l + 1 /\ UNCHANGED <<nviol, ndiv>>
 
 Report(e, x) == PrintT(<<"VIOL", x[1], x[2], x[3], run.run, e.i, e.n, e.call>>)
@@ -538,6 +540,7 @@ Step ==
         /\ recPrim' = IF /\ e.call = "OnReceive" /\ e.arg.t = "RecoveryMessage" /\ e.panic = "" /\ pre.started /\ e.post.started
                          /\ e.post.h = pre.h /\ e.post.v > pre.v /\ e.post.me = e.post.primary
                       THEN recPrim \cup {e.post.h} ELSE recPrim
+        /\ initTs' = IF e.call \in {"Start", "Reset"} THEN [initTs EXCEPT ![e.n] = e.arg.ts] ELSE initTs
   /\ l' = l + 1 /\ UNCHANGED run
 
 EndViolations(x) ==
@@ -550,7 +553,7 @@ EndRun ==
   /\ LET V == EndViolations(TLog[l]) IN
        /\ \A x \in V : PrintT(<<"VIOL", x[1], x[2], x[3], run.run, 0, -1, "RunEnd">>)
        /\ nviol' = nviol + Cardinality(V)
-  /\ l' = l + 1 /\ UNCHANGED <<run, st, acc, sent, lock, maxv, preOk, txq, cfgs, ndiv, lastProp, recPrim>>
+  /\ l' = l + 1 /\ UNCHANGED <<run, st, acc, sent, lock, maxv, preOk, txq, cfgs, ndiv, lastProp, recPrim, initTs>>
 
 Next == StartRun \/ Step \/ EndRun
 Spec == Init /\ [][Next]_vars
